@@ -416,6 +416,7 @@ namespace smt
                     analyze(*tmp[i], no_good, bt_level);
                     while (decision_level() > bt_level)
                         pop();
+                    ORATIO_VERIF_CLAUSE(*this, no_good, verif::CONFLICT);
                     // we record the no-good..
                     record(no_good);
 
@@ -433,6 +434,7 @@ namespace smt
 
                         if (root_level())
                         {
+                            ORATIO_VERIF_CLAUSE(*this, th->cnfl, verif::THEORY_ROOT_CONFLICT);
                             th->cnfl.clear();
                             return false;
                         }
@@ -452,6 +454,7 @@ namespace smt
             {
                 if (root_level())
                 {
+                    ORATIO_VERIF_CLAUSE(*this, th->cnfl, verif::THEORY_ROOT_CONFLICT);
                     th->cnfl.clear();
                     return false;
                 }
@@ -480,6 +483,7 @@ namespace smt
 
         // we reverse the no-good and store it..
         std::reverse(no_good.begin(), no_good.end());
+        ORATIO_VERIF_CLAUSE(*this, no_good, verif::NEXT);
         record(std::move(no_good));
 
         return propagate();
@@ -601,6 +605,26 @@ namespace smt
             return true;
         }
     }
+
+#ifdef ORATIO_VERIF
+    namespace verif
+    {
+        SMT_EXPORT hooks &get_hooks() noexcept
+        {
+            static hooks h;
+            return h;
+        }
+    } // namespace verif
+
+    SMT_EXPORT std::vector<std::vector<lit>> sat_core::verif_clauses() const
+    {
+        std::vector<std::vector<lit>> cls;
+        for (const auto &c : constrs)
+            if (const clause *cl = dynamic_cast<const clause *>(c))
+                cls.push_back(cl->get_lits());
+        return cls;
+    }
+#endif
 
     void sat_core::pop_one() noexcept
     {
